@@ -89,6 +89,14 @@ theorem all_trees_exist (reg : Registry) (opts : Opts) (plug : Plug) (hmods : Mo
   simp only [keys, Lemmas.Tree.pstate0, Lemmas.Tree.pending0, Lemmas.Tree.allMods, List.map_map]
   rfl
 
+/-- One cache entry — one tree — per converted (sub)module: tree ids are not repeated.  (A row is
+filed only on a cache miss, and a (sub)module whose conversion is in progress is not converted
+again.) -/
+theorem one_tree_per_module (reg : Registry) (opts : Opts) (plug : Plug) (hL : LoadedShape reg) (s : PState)
+    (order : List Nat) (h : phaseStart reg opts plug = some (s, order)) : (s.forest.trees.map (·.1)).Nodup := by
+  obtain ⟨rfl, _⟩ := phaseStart_eq reg opts plug s order h
+  exact tstate_ckeys_nodup reg opts plug hL
+
 /-- One row per tree in the pending table (`PhaseInput.keys`). -/
 theorem pending_one_row_per_tree (reg : Registry) (opts : Opts) (plug : Plug) (hL : LoadedShape reg) (s : PState)
     (order : List Nat) (h : phaseStart reg opts plug = some (s, order)) : (keys s).Nodup := by
